@@ -298,7 +298,7 @@ def run(ctx):
         with open(ctx.replay_in) as f:
             rc = json.load(f)["case"]["case"]
         chosen = [c for c in gen + splits + partials + fails + both if c == rc.get("gen")]
-        if not chosen and not rc["op"].startswith(("synth", "subs")):
+        if not chosen and not rc["op"].startswith(("synth", "subs", "collide")):
             raise lib.Inconclusive("the case of %s is not produced by the generator" % ctx.replay_in)
     elif quick:
         # |P| <= 2 with P = Deny or one allowed decoy is kept in full; the remaining |P| = 2 and |P| = 3 cases are sampled
@@ -366,10 +366,45 @@ def run(ctx):
         nsynth += 1
         cases.append(sc)
         synth_in.append(dict(sc, kind=o["kind"], layout=o["layout"], nnfirst=o["nnfirst"]))
+    # colliding coordinates (decision cache key without separators)
+    g = ctx.tlc_must_pass("resolve", "Gen_Authz", "Gen_Authz_1.cfg", workers=1, timeout=600, env={"PHASE": "collide", "OPS": ""}, tag="gen-collide")
+    ncollide = 0
+    for c in sorted(g.printed, key=lambda c: json.dumps(c, sort_keys=True)):
+        o = c["collide"]
+        objs = list(o["coords"])
+        idx = [1, 2]
+        if o["swap"]:
+            objs.reverse()
+            idx.reverse()
+        coord = {i: "%s.%s" % (o["coords"][i - 1]["type"], o["coords"][i - 1]["field"]) for i in (1, 2)}
+        oid = "collide:%d:%s" % (o["pair"], "swapped" if o["swap"] else "straight")
+        if oid not in shapes:
+            fams = [coord[1], coord[2]]
+            shapes[oid] = {"id": oid, "kind": "query", "defer": False, "fams": fams, "famcoords": {f: [f] for f in fams}, "deferfams": [], "splits": [],
+                           "shape": {"v": [{"types": ["Query"], "fields": [
+                               {"key": "o%d" % (k + 1), "fam": "Query.o%d" % (k + 1), "rc": "Query.o%d" % (k + 1), "name": "o%d" % (k + 1), "nn": [False],
+                                "leaf": False, "obj": {"v": [{"types": [ob["type"]], "fields": [
+                                    {"key": ob["field"], "fam": "%s.%s" % (ob["type"], ob["field"]), "rc": "%s.%s" % (ob["type"], ob["field"]),
+                                     "name": ob["field"], "nn": [False], "leaf": True, "obj": {"v": []}}]}]}} for k, ob in enumerate(objs)]}]}}
+            text[oid] = "hand-built plan: { o1 { %s } o2 { %s } } with coordinates %s (data source %s) and %s (data source %s)" % (
+                objs[0]["field"], objs[1]["field"], "%s.%s" % (objs[0]["type"], objs[0]["field"]), objs[0]["ds"],
+                "%s.%s" % (objs[1]["type"], objs[1]["field"]), objs[1]["ds"])
+            bid = "base|%s|sync" % oid
+            bases[(oid, "sync")] = bid
+            b = {"id": bid, "op": oid, "text": text[oid], "protect": [], "deny": [], "mode": "none", "delivery": "sync", "deny_fams": [], "P": [], "split": ""}
+            cases.append(b)
+            synth_in.append(dict(b, kind="collide", objects=objs, protectc=[], denyc=[]))
+        if ctx.replay_in and c != rc.get("gen"):
+            continue
+        sc = {"id": "k%06d" % ncollide, "op": oid, "text": text[oid], "protect": [], "deny": [], "mode": c["mode"], "delivery": "sync",
+              "deny_fams": sorted(coord[i] for i in c["deny"]), "P": sorted(coord[i] for i in c["P"]), "split": "", "gen": c}
+        ncollide += 1
+        cases.append(sc)
+        synth_in.append(dict(sc, kind="collide", objects=objs, protectc=sc["P"], denyc=sc["deny_fams"]))
     lib.write_ndjson(ctx.path("synth.ndjson"), synth_in)
     ctx.run_bin(binary, ["-mode", "synth", "-in", ctx.path("synth.ndjson"), "-out", ctx.path("synth-results.ndjson")], timeout=600)
     results.update({r["id"]: r for r in lib.read_ndjson(ctx.path("synth-results.ndjson"))})
-    ctx.log("synthetic plans: %d cases" % nsynth)
+    ctx.log("synthetic plans: %d cases + %d colliding-coordinate cases" % (nsynth, ncollide))
     # ---- 3c. subscription updates at the resolve level ------------------------------------------------------------
     g = ctx.tlc_must_pass("resolve", "Gen_Authz", "Gen_Authz_3.cfg", workers=1, timeout=600, env={"PHASE": "subs", "OPS": ""}, tag="gen-subs")
     UPDATES = 2
